@@ -58,6 +58,13 @@ reg('C03', 'exhaustive mention-sequence enumeration + Hypothesis elements/option
     'Hypothesis draws 0–6 mentions per element with replacement from a 6-name pool in every written form, over syntaxes html/xml/jsx/vue and the attribute-related output options.',
     'Mixing {expression} and non-expression values for one name, `$`/`\\`/`${` in values and the `..class` multiple form are outside the generated domain.')
 
+reg('C04', 'exhaustive short-text enumeration + Hypothesis text atoms / wrap-line lists; differential against a reference text-placement model',
+    'Every complete text of ≤ 3 (quick) / ≤ 4 (thorough) characters over the markup alphabet is placed in 4 positions and as wrap line; Hypothesis builds texts from plain '
+    'punctuation, nested balanced braces, escapes of every character, counters and placeholders, and wrap cases with an implicit repeater at depth 0–3 (element or group), '
+    '0–2 placeholders in text/attribute values/children, 0–6 lines incl. blank and syntax-looking ones, or none. Output is compared exactly with the reference placement '
+    '(multi-line text without repeater: by trimmed line sequence inside the target element).',
+    'Raw `$#`/`${` in inline text without model atoms, text starting with `<tag`, line-boundary characters of str.splitlines() and more than one implicit repeater are not generated.')
+
 NOT_APPLICABLE = [
 ]
 
